@@ -71,7 +71,9 @@ REQUIRED_THEOREMS = ["peer_session_functional_injective", "one_new_one_del_per_s
                      "call_home_takes_one_reference", "end_call_home_frees_and_unlinks", "client_free_releases_and_unlinks",
                      "release_frees_only_unreferenced_client_sessions", "client_session_survives_pass",
                      "last_release_frees_client_session", "release_keeps_referenced_session", "early_release_keeps_session",
-                     "end_call_home_is_release"]
+                     "end_call_home_is_release",
+                     "client_session_in_table_is_referenced", "client_invariant_step",
+                     "unreferenced_session_is_server_session"]
 RULE = ("one line = one whole history on a fresh real server context with two UDP endpoints and one TCP endpoint: requests from 1..50 peers "
         "(peers P and P+25 share the remote address/port and differ in the local port only; groups share the remote IP or the "
         "remote port) and, in about a third of the histories, 1..4 stream peers (connect + CSM, whole requests / observe / async / "
